@@ -55,6 +55,60 @@ CLAIMED.update({
          "DESIGN.md §3 C17"),
 })
 
+
+CLAIMED.update({
+ "C02": ("model_checking",
+         "bounded-exhaustive enumeration of programs x runtime value vectors: generated functions linked with a reflect driver and executed on every vector, reference denotation as oracle",
+         "Every accepted, compiling generated function of families F1, F-name, F2 (all styles, receivers, both copy directions), F3 and F4 is linked (200 cell packages per driver binary) and called on whole-struct profiles {zero, sentinel, extreme, nil} x every single-leaf deviation over per-kind leaf domains (complete product for <= 3 leaves) x destination-before {zero, dirty}; after each call every assigned leaf must equal the reflect-evaluated denotation of its (reference-sanctioned) source, every other leaf its previous value, source and arguments must be unmodified, and the call must not panic. About 0.22M calls quick, several million thorough.",
+         "The plan of a function consists of generated lines that realise an admissible outcome of the reference matcher, plus reference-derived items for notation-decided paths; by-value destinations under :reverse are unobservable and skipped; unexported members are read/written through unsafe. Known findings: nil pointer on a mapped source path (README TODO) and the run-time face of the C06 finding.",
+         "DESIGN.md §3 C02"),
+ "C07": ("fault_enumeration",
+         "exhaustive fault-plan enumeration: every subset of failing error-capable call sites on every generated function of the site-placement product, executed through the reflect driver with an instrumented trace",
+         "All 119 subsets (size 1..5) of 7 site placements (pre hook, two top-level converters, two nested-path converters, error getter via :map, post hook) x style x destination pointer/value: each accepted function with an error result is run under ALL 2^k fault plans; the returned error must be exactly the sentinel of the first failing site in the observed trace and the trace must end there; a nil error iff no executed site fails. The same product with a method that has no error result must be rejected or must not call any error-returning site.",
+         "Sentinel errors are unique pointer values per site; the order of sites is the function's own execution order (the oracle is order-agnostic).",
+         "DESIGN.md §3 C07"),
+ "C09": ("model_checking",
+         "exhaustive enumeration of notation-scope settings through the real CLI with a differential oracle against stand-alone generation",
+         "(b) 24-element method alphabet: every ordered pair in one interface with both name orders, every ordered pair split over two interfaces where the other interface carries all interface-level notations, every ordered triple in thorough; (a) the complete product (3^6)^2 = 531441 of interface-level x method-level settings {unset, non-default, explicit default} of the six inheritable notations in thorough (729 files x 729 methods), all pairs of notations jointly in quick. The text of every generated function must equal the text generated for that method alone with its effective settings written at method level (34 distinct reference bodies). (a) is batched per file, which is sound only given (b); (b) is decided first.",
+         "The generated text is the observation point (the options parser is unexported); the probe struct pair reveals case/getter/stringer/typecast/match in the body and style in the signature.",
+         "DESIGN.md §3 C09"),
+ "C10": ("model_checking",
+         "bounded-exhaustive enumeration of hook x method shapes through the real CLI, accepted cells executed with instrumented hooks under the reflect driver",
+         "Hook signature product (destination/source by pointer or value, error, additional parameters none/all/wrong count/wrong type, pre/post/both) x method shape product (style, pointer-ness, receiver, error result, additional arguments) plus imported hooks: shapes that cannot fit must be rejected with a positioned message, all others accepted and executed: pre exactly once and first on the untouched destination, copy effects after it (a by-pointer pre hook scribbles every leaf so late or early assignments show), post exactly once and last on the values that are returned, pointer arguments identical to the function's own operands, additional arguments in order.",
+         ":reverse is excluded (the property says which operand a hook sees under :reverse is not documented).",
+         "DESIGN.md §3 C10"),
+ "C12": ("model_checking",
+         "explicit-state search over file-system histories (setup version x bytes at the output path), every Run edge executed with the real binary",
+         "States (version, output bytes) for versions {base, field renamed, :conv naming a function that exists only in the stale output, rejected input, second interface}; transitions Run, Edit, Crash(k) for EVERY byte offset k of every version's output, Corrupt (11 kinds incl. the stale output of every other version); default output path and an -out path inside the package; 5.7k Run edges thorough. Invariant on every Run edge: exit status, stdout, stderr and resulting bytes equal those of the Run edge from (version, absent); Run after Run changes nothing.",
+         "Crash states are all prefixes of the single os.WriteFile the tool issues (O_TRUNC + one write); a file with another package clause is outside the property (`broken Go of the same package`).",
+         "DESIGN.md §3 C12"),
+ "C13": ("model_checking",
+         "exhaustive enumeration of the owned nondeterminism (nanoid marker, every range-over-map iteration order) and of the environment, differential oracle against the base environment",
+         "8 inputs chosen for import-table and marker exposure x 9 marker shapes (via the go-nanoid BytesGenerator seam) x every permutation of every executed range-over-map loop (overlay rewrite to verifseam.Keys; one deviation at a time, two in thorough) completely, plus cwd/path spelling (10 places) x GOFILE vs argument x HOME x TMPDIR within 2 deviations: exit status, output bytes, stdout and stderr (path spellings tokenised) must equal the base environment's. A free-running repetition (real crypto/rand, native map order) is reported separately as a cross-check.",
+         "All three range-over-map loops of the repository are owned (evidence lists owned/unowned loops); wall clock and PID are not intercepted (only the -log file contains timestamps and it is not compared); cwd outside the module is not explored (the go tool itself cannot load the package from there).",
+         "DESIGN.md §3 C13"),
+ "C15": ("model_checking",
+         "exhaustive enumeration of input kind x flags x output-path state, snapshot (frame) oracle plus an strace monitor of the process's own write-class syscalls",
+         "7 input kinds (accepted, rejected in parse / build / at the format stage, no interface, syntax error) x -dry x -print x -log x {default path, -out elsewhere} x output-path state {absent, present, parent missing, is a directory, below a regular file, read-only}: content hash + mode of every path under the scratch root (incl. HOME, TMPDIR) before vs after; only the output (iff exit 0 and not -dry) and the log (iff -log) may change, and the output path keeps existence, bytes and mode on dry or failed runs. Thorough traces every open-for-write/rename/unlink/mkdir/chmod/... syscall of the convergen process itself (children that exec `go` excluded via the clone tree) against the same allow-list.",
+         "$HOME/.config and $HOME/.cache (written by the go children) are the only snapshot exclusions; I/O errors after a successful open are outside the property's fault list.",
+         "DESIGN.md §3 C15"),
+ "C16": ("model_checking",
+         "bounded-exhaustive enumeration of element-type pairs x slice values: static plan comparison plus execution under the reflect driver with aliasing probes",
+         "14x14 element pairs (8x8 quick) x named/unnamed slice types on either side x :typecast x style: statically, assigned iff elements assignable or (convertible and :typecast); dynamically for slice values {nil, [a,b] cap 4, empty non-nil, [a], [a,b,c], two fields sharing a backing array} x destination-before {zero, dirty}: equal length and (converted) elements, distinct backing arrays, a write through either slice invisible through the other, nil source leaves the destination as it was or nil.",
+         "Aliasing is probed by pointer comparison of the slice data and by writing element 0 on each side.",
+         "DESIGN.md §3 C16"),
+ "C18": ("model_checking",
+         "exhaustive enumeration of flag x path-spelling x -out combinations against a reference model of the documented CLI contract",
+         "-dry x -print x -log x -out {unset, same dir, other dir, no extension, multi-dot} x input spelling {relative, absolute, nested from the parent, GOFILE only, GOFILE+argument, ./relative, with ..} x 3 accepted inputs (840 runs thorough): a 40-line reference predicts output path, whether it is written, stdout, log path; code and exit status must equal the plain run's (differential), and nothing but output and log may change.",
+         "stdout may carry one extra trailing newline (fmt.Println of the code).",
+         "DESIGN.md §3 C18"),
+ "C19": ("model_checking",
+         "explicit-state search on the real exported matcher API (pkg/option linked from /repo) against the Go standard library",
+         "All plain patterns of length <= 2/3 over a 10-symbol identifier alphabet (mixed case, dot, digit, non-ASCII incl. long s and Kelvin sign) x all paths of length <= 3/4; every concatenation of <= 2/3 atoms from 31 regexp atoms (classes, escapes, anchors, alternation, flags, Unicode classes, \\Q..\\E) x all paths; per (pattern, path): construction under either mode, then the query walk case,case,nocase,nocase,case on one shared matcher object (all transitions of the cached mode), plus all length-4 query sequences on representative paths; IdentMatcher, CompareFieldName, ShouldSkip, NameMatcher, FieldConverter over the same strings. 7M (quick) / 270M (thorough) API calls, each compared with == / EqualFold / regexp.MustCompile(e | (?i)e).MatchString.",
+         "The Go regexp package defines RE2 semantics; `(?i)` prefixed to the expression defines case-insensitive search.",
+         "DESIGN.md §3 C19"),
+})
+
 PENDING_REASON = "check not built yet in this round (work in progress; see DESIGN.md §8 build order) - not a claim that model checking cannot apply"
 
 props = [json.loads(l) for l in open(os.path.join(HERE, "properties.jsonl"))]
